@@ -141,12 +141,9 @@ Qed.
 Lemma step_mono s w : mono s (step s w).
 Proof.
   destruct w as [|i|i| |i|]; cbn [step].
-  - unfold estep, mono. destruct (epc s); cbn; try (left; reflexivity).
-    + destruct (inbox s) as [|e r]; [left; reflexivity|]. destruct (intable s); [destruct e|]; cbn; left; reflexivity.
-    + zeq; cbn; uc; lia.
-    + zeq; cbn; lia.
-    + destruct (cbset s) eqn:Ecb; cbn; lia.
-    + zeq; cbn; lia.
+  - unfold estep, mono. destruct (epc s); cbn; try (left; reflexivity);
+      try (destruct (inbox s) as [|e r]; [left; reflexivity|]; destruct (intable s); [destruct e|]; cbn; left; reflexivity);
+      try destruct (cbset s) eqn:Ecb; zeq; cbn; uc; lia.
   - unfold gstep. destruct (nth_error (gors s) i) as [g|]; [|left; reflexivity].
     destruct g as [| | |k cl|c more| | | | | | | |c|]; cbn; try (left; reflexivity);
       try apply (cstep_mono s c); zeq; cbn; try destruct (recv s); try destruct (pending s); cbn; left; reflexivity.
@@ -979,18 +976,37 @@ Proof.
   destruct (Z.eqb_spec (st s) c_streamOpened); [uc; lia|reflexivity].
 Qed.
 
-(* ---------- recvBuf is recycled under a running OnData: the bytes an invocation was offered do not stay
-   readable until it returns ---------- *)
-Definition view_stable_stmt : Prop := forall cb0 inb nc scr ups sy sched,
+(* ---------- the bytes an OnData invocation was offered stay readable until it returns: while an OnData runs the
+   event loop never touches recvBuf.  (The closed path of fillDataToReadBuffer recycles recvBuf only when no
+   callbacks are installed; that point is only reached with no goroutine at all.) ---------- *)
+Definition e_clrR (e : epcT) : Z := match e with EClrR => 1 | _ => 0 end.
+Record InvV (s : est) : Prop := {
+  v_clr : e_clrR (epc s) = 0 \/ cz g_run (gors s) + cz g_cb (gors s) = 0 }.
+Lemma stepV s w : InvP s -> InvC s -> InvV s -> InvV (step s w).
+Proof.
+  intros [P1 _ _ _ _] [_ _ _ C4 _ _ _ _] [V1].
+  assert (Hrun : cz g_run (gors s) <= cz g_all (gors s)) by (apply cz_le; intros g _; reflexivity).
+  assert (Hcb : cz g_cb (gors s) <= cz g_all (gors s)) by (apply cz_le; intros g _; reflexivity).
+  assert (Hle : 0 <= e_clrR (epc s) <= e_clr (epc s)) by (destruct (epc s); simpl; lia).
+  cases s w; brk; constructor; cbn [e_clrR]; cb; rw_eqs; rw_cnt; cb; cbn [e_clrR] in *; try assumption;
+    czin; cb; uc; zeqh; uc; cb; cbn [e_clrR e_clr] in *; try lia; czpos s; lia.
+Qed.
+Lemma initV cb0 inb n scr ups sy : InvV (init_sy cb0 inb n scr ups sy).
+Proof. constructor; cbn; lia. Qed.
+Lemma runV sched s : InvAll s -> InvV s -> InvV (run sched s).
+Proof.
+  revert s; induction sched as [|w l IH]; simpl; intros s HA HV; auto.
+  apply IH; [apply stepAll, HA|apply stepV; [apply HA|apply HA|exact HV]].
+Qed.
+
+Theorem view_stable cb0 inb nc scr ups sy sched :
   let s := run sched (init_sy cb0 inb nc scr ups sy) in
   cz g_run (gors s) >= 1 -> recv (step s WEv) = recv s.
-(* while the stream is not closed the event loop never touches recvBuf *)
-Theorem view_stable_partial cb0 inb nc scr ups sy sched :
-  let s := run sched (init_sy cb0 inb nc scr ups sy) in
-  st s <> c_streamClosed -> recv (step s WEv) = recv s.
 Proof.
-  intros s Hst. pose proof (runAll sched _ (initAll cb0 inb nc scr ups sy)) as [[HE _ _ _ _] _ _ _ _]. fold s in HE.
-  specialize (HE Hst). cbn [step]. unfold estep. destruct (epc s) eqn:Ee; cbn in HE; try lia.
+  intros s Hrun.
+  pose proof (runV sched _ (initAll cb0 inb nc scr ups sy) (initV cb0 inb nc scr ups sy)) as [HV]. fold s in HV.
+  pose proof (cz_nonneg g_cb (gors s)).
+  cbn [step]. unfold estep. destruct (epc s) eqn:Ee; cbn [e_clrR] in HV; try lia.
   all: repeat match goal with
        | |- context [match inbox ?x with _ => _ end] => destruct (inbox x) as [|[m|] r]
        | |- context [if ?c then _ else _] => destruct c
